@@ -214,6 +214,13 @@ static int do_check(const std::string& prop, int tier, uint64_t base_seed, int j
 {
 	const CheckDef* def = nullptr;
 	for (auto& d : check_table()) if (d.prop == prop) def = &d;
+	static CheckDef any;
+	if (prop == "ANY") {
+		// debugging aid: run one family and show every violation of every property (no evidence written)
+		any.prop = "ANY"; any.level = "exploration"; any.rule = "debug";
+		any.parts = { { only_family, runs_override > 0 ? runs_override : 200, runs_override > 0 ? runs_override : 200 } };
+		def = &any;
+	}
 	if (!def) { fprintf(stderr, "no check for %s\n", prop.c_str()); return 2; }
 	double t0 = now_wall();
 	// work list
@@ -299,7 +306,7 @@ static int do_check(const std::string& prop, int tier, uint64_t base_seed, int j
 			for (auto& v : j.at("viol").a) {
 				Json e = Json::obj();
 				e.set("prop", v.str("prop")).set("cls", v.str("cls")).set("msg", v.str("msg")).set("family", j.str("family")).set("seed", j.at("seed")).set("index", j.at("index")).set("op", v.at("op")).set("focus", v.at("focus"));
-				if (v.str("prop") == prop) { e.set("plan", j.at("plan")); a.own_viol.push_back(e); }
+				if (v.str("prop") == prop || prop == "ANY") { e.set("plan", j.at("plan")); if (prop == "ANY") e.set("cls", v.str("prop") + "/" + v.str("cls")); a.own_viol.push_back(e); }
 				else if (a.cross.size() < 40) a.cross.push_back(e);
 			}
 		}
@@ -312,6 +319,14 @@ static int do_check(const std::string& prop, int tier, uint64_t base_seed, int j
 
 	// ---- triage own violations: known findings, gate, minimise, replay files
 	std::vector<Known> known = load_known();
+	if (prop == "ANY") {
+		std::map<std::string, int> cc;
+		std::map<std::string, std::string> ex;
+		for (auto& v : a.own_viol) { cc[v.str("cls")]++; if (!ex.count(v.str("cls"))) ex[v.str("cls")] = strf("(%s #%lld) ", v.str("family").c_str(), (long long)v.num("index")) + v.str("msg").substr(0, 300); }
+		for (auto& kv : cc) printf("  %s x%d e.g. %s\n", kv.first.c_str(), kv.second, ex[kv.first].c_str());
+		printf("sweep %s runs=%llu\n", only_family.c_str(), (unsigned long long)a.runs);
+		return 0;
+	}
 	int violations = 0;
 	std::set<std::string> known_printed;
 	std::vector<Json> known_hits;
